@@ -1,6 +1,9 @@
 """C07 — Decimal conversion is accurate in both directions."""
+import os
 import re
+import shutil
 import struct
+import tempfile
 from fractions import Fraction
 
 from vlib import basic, mbf
@@ -13,7 +16,9 @@ RULE = ('printing: Integer/Single/Double byte patterns from vlib.mbf.gen_float, 
         'letter E/D/e/d with sign and value over the whole range, sigil !#%, blanks/tabs/line feeds inserted at '
         'random places, trailing junk), each (text, allow_nonnum) is one case; non-trivial = not the zero pattern / '
         'not the empty string; the same values go through a real Session: PRINT, STR$, WRITE, VAL, program '
-        'literals + LIST (re-entered and listed again), READ/DATA, STR$/VAL chains; &H/&O literals with plain digit '
+        'literals + LIST (re-entered and listed again), READ/DATA, INPUT# from a file, STR$/VAL chains; the parsing '
+        'and Session slices are repeated with the interpreter option double=True (Values.double_math), which the '
+        'decimal conversions must not depend on; &H/&O literals with plain digit '
         'strings (octal ones with blanks between the digits)')
 EXPLANATION = ('theorems (PcbV.Props.C07): literal type rule of str_to_decimal (sigil, exponent letter, significant '
                'digit count) and integer-first rule of from_repr, exact decimal text and parse-back of the Integer type, '
@@ -129,10 +134,14 @@ class FakeConsole(object):
 class Impl(mbf.Impl):
     """numbers.* decimal methods, values.to_repr / Values.from_repr of the real code."""
 
-    def __init__(self):
+    def __init__(self, double_math=False):
         mbf.Impl.__init__(self)
+        # the Values option behind Session(double=True); decimal conversion must not depend on it
+        self.double_math = bool(double_math)
+        self.vs = self.values.Values(None, self.double_math)
+        self.vs.set_handler(self.values.FloatErrorHandler(None))
         self.con = FakeConsole()
-        self.vsoft = self.values.Values(None, False)
+        self.vsoft = self.values.Values(None, self.double_math)
         self.vsoft.set_handler(self.values.FloatErrorHandler(self.con))
         self.cls['i'] = self.numbers.Integer
 
@@ -587,14 +596,15 @@ def run_parsing(ctx, impl, n):
             cases.append([mbf.hx(text), allow])
             lines.append('fromrepr %s %d' % (mbf.hx(text), allow))
             outs.append(out)
-            ctx.case(('fromrepr', text, allow))
+            ctx.case(('fromrepr', text, allow, impl.double_math))
             ctx.count('fromrepr:' + out.split()[0])
-            case = {'kind': 'fromrepr', 'text': mbf.hx(text), 'allow': allow}
+            case = {'kind': 'fromrepr', 'text': mbf.hx(text), 'allow': allow, 'double_math': impl.double_math}
             if out.startswith('exc'):
                 _fail(ctx, 'parse:host-exception:%s' % out.split()[1], case,
                          'from_repr(%r) raised a host exception %s' % (text, out))
             if lit is not None and lit.clean():
-                check_parsed(ctx, lit, out, 'from_repr', dict(case, lit=lit_parts(lit)))
+                check_parsed(ctx, lit, out, 'from_repr' + (':double_math' if impl.double_math else ''),
+                             dict(case, lit=lit_parts(lit)))
         if lit is None or rng.random() < 0.4:
             allow = rng.randrange(2)
             cases.append([mbf.hx(text), allow])
@@ -710,21 +720,30 @@ def session_printing(ctx, impl, s, n):
                          '%s shows %r, to_repr gives %r' % (where, text, mbf.unhx(want[3:])))
 
 
-def session_parsing(ctx, impl, s, n):
-    """VAL, program literals (tokenised, run, listed, re-entered) and READ/DATA."""
+def session_parsing(ctx, impl, s, n, double=False, drive=None):
+    """VAL, program literals (tokenised, run, listed, re-entered), READ/DATA and INPUT# from a file."""
     rng = ctx.rng
     for _ in range(n):
         lit = Lit(rng)
         if not lit.clean() or b'\n' in lit.text:
             continue
         text = lit.text
-        case = {'kind': 'session-parse', 'lit': lit_parts(lit)}
+        case = {'kind': 'session-parse', 'lit': lit_parts(lit), 'double': bool(double)}
+        if drive and not lit.blanks and rng.random() < 0.5:
+            # INPUT# reads the item from a text file (from_repr with allow_nonnum=True)
+            with open(os.path.join(drive, 'T.TXT'), 'wb') as f:
+                f.write(text + b'\r\n')
+            out = basic.safe_exec(s, b'LOCATE 1,1:OPEN "T.TXT" FOR INPUT AS 1:INPUT#1,X#:CLOSE:D$=MKD$(X#)')
+            got = s.get_variable('D$')
+            ctx.case(('session-input#', text, double))
+            ctx.count('session:input#')
+            check_session_value(ctx, lit, impl.fromrepr(text, 1), out, got, 'INPUT#', case)
         ref = impl.fromrepr(text, 1)
         # VAL
         s.set_variable('T$', text)
         out = basic.safe_exec(s, b'LOCATE 1,1:D$=MKD$(VAL(T$))')
         got = s.get_variable('D$')
-        ctx.case(('session-val', text))
+        ctx.case(('session-val', text, double))
         ctx.count('session:val')
         check_session_value(ctx, lit, ref, out, got, 'VAL', case)
         if BLANK_IN_EXP.search(text):
@@ -739,7 +758,7 @@ def session_parsing(ctx, impl, s, n):
             out = basic.safe_exec(s, b'LOCATE 1,1:RUN')
             out2 = basic.safe_exec(s, b'LOCATE 1,1:D$=MKD$(X#)')
             got = s.get_variable('D$')
-            ctx.case(('session-literal', text))
+            ctx.case(('session-literal', text, double))
             ctx.count('session:literal')
             tlit = lit
             if b'\t' in text:
@@ -779,7 +798,7 @@ def session_parsing(ctx, impl, s, n):
             out = basic.safe_exec(s, b'LOCATE 1,1:RUN')
             out2 = basic.safe_exec(s, b'LOCATE 1,1:D$=MKD$(X#)')
             got = s.get_variable('D$')
-            ctx.case(('session-read', text))
+            ctx.case(('session-read', text, double))
             ctx.count('session:read')
             check_session_value(ctx, lit, impl.fromrepr(text.strip(b' \t'), 0), out + out2, got, 'READ', case)
 
@@ -824,12 +843,25 @@ def check_session_value(ctx, lit, ref, out, got, where, case, signed_token=False
         _fail(ctx, key, case, '%s of %r gives %s (%s), decimal value %s' % (where, lit.text, mbf.hx(got), float(v), float(dec)))
 
 
-def run_session(ctx, impl, n_print, n_parse):
-    s = basic.new_session()
+def run_session(ctx, impl, n_print, n_parse, double=False):
+    """One Session; `double=True` is the interpreter option --double (double-precision transcendentals), which
+    the decimal conversions must not depend on."""
+    drive = tempfile.mkdtemp(prefix='pcbv_c07_')
+    try:
+        _run_session(ctx, impl, n_print, n_parse, double, drive)
+    finally:
+        shutil.rmtree(drive, ignore_errors=True)
+
+
+def _run_session(ctx, impl, n_print, n_parse, double, drive):
+    s = basic.new_session(double=True, devices={'C': drive}, current_device='C') if double else \
+        basic.new_session(devices={'C': drive}, current_device='C')
+    ctx.count('sessions:double=%s' % bool(double))
     with s:
-        run_radix(ctx, impl, 400 if ctx.quick else 4000, session=s)
+        if not double:
+            run_radix(ctx, impl, 400 if ctx.quick else 4000, session=s)
         session_printing(ctx, impl, s, n_print)
-        session_parsing(ctx, impl, s, n_parse)
+        session_parsing(ctx, impl, s, n_parse, double=double, drive=drive)
         # a multi-step history: a value printed, read back with VAL, printed again ... must stay within the bounds
         rng = ctx.rng
         for _ in range(n_print // 8):
@@ -847,7 +879,7 @@ def run_session(ctx, impl, n_print, n_parse):
                 out = basic.safe_exec(s, b'LOCATE 1,1:T$=STR$(%s):%s=VAL(T$):D$=%s(%s)' % (var, var, mk, var))
                 text = s.get_variable('T$')
                 nxt = s.get_variable('D$')
-                ctx.case(('chain', fs, cur, hop))
+                ctx.case(('chain', fs, cur, hop, double))
                 ctx.count('session:str-val-chain')
                 case = {'kind': 'chain', 't': fs, 'b': mbf.hx(b), 'hop': hop}
                 if b'<<EXC' in out or nxt is None or len(nxt) != SIZE[fs]:
@@ -876,17 +908,25 @@ def run(ctx):
 
 
 def _run(ctx, impl):
+    # the same code with the Values option double_math / Session(double=True) switched on: the decimal
+    # conversions are the same functions and must give the same bytes (the model has no such parameter)
+    impl2 = Impl(double_math=True)
     if ctx.quick:
         run_printing(ctx, impl, 5000)
         run_notation(ctx, impl, 3000)
         run_parsing(ctx, impl, 12000)
+        run_parsing(ctx, impl2, 2500)
         run_session(ctx, impl, 480, 300)
+        run_session(ctx, impl2, 96, 130, double=True)
     else:
         for _ in range(8):
             run_printing(ctx, impl, 12000)
             run_parsing(ctx, impl, 25000)
+        run_parsing(ctx, impl2, 50000)
+        run_printing(ctx, impl2, 12000)
         run_notation(ctx, impl, 20000)
         run_session(ctx, impl, 2400, 1500)
+        run_session(ctx, impl2, 1200, 1500, double=True)
 
 
 def replay(ctx, payload):
@@ -901,6 +941,8 @@ def replay(ctx, payload):
             return out
         check_shown(ctx, t, b, mbf.unhx(out[3:]), 'to_repr', case)
     elif kind == 'fromrepr':
+        if case.get('double_math'):
+            impl = Impl(double_math=True)
         text = mbf.unhx(case['text'])
         out = impl.fromrepr(text, case['allow'])
         if out.startswith('exc'):
@@ -930,7 +972,9 @@ def replay(ctx, payload):
         check_shown(ctx, t, b, out.strip(b'\r\n')[:-1] if out.endswith(b' \r\n') else out.strip(), 'PRINT', case)
     elif kind == 'session-parse':
         lit = lit_from_parts(case['lit'])
-        s = basic.new_session()
+        if case.get('double'):
+            impl = Impl(double_math=True)
+        s = basic.new_session(double=True) if case.get('double') else basic.new_session()
         with s:
             s.set_variable('T$', lit.text)
             out = basic.safe_exec(s, b'D$=MKD$(VAL(T$))')
